@@ -260,6 +260,11 @@ func (c03) Case(c *core.Ctx) {
 	var st c03stats
 	mxj.XMLEscapeChars(true)
 	defer ResetDefaults()
+	if r.Intn(6) == 0 {
+		// the other spelling of empty elements (<a></a> instead of <a/>): the same data, a well-formed document
+		mxj.XmlGoEmptyElemSyntax()
+		c.Count("option:go-empty-element-syntax")
+	}
 	defer verifyKept(c, "c03-retained-output-changed")
 	c.Eval()
 	failedCalls(c, 8)
